@@ -6,7 +6,7 @@ fn apply_exp10(base: BigInt, exponent: i32) -> Ratio<BigInt> {
     if exponent >= 0 {
         Ratio::from(base * BigInt::from(10).pow(exponent as u32))
     } else {
-        Ratio::new(base, BigInt::from(10).pow((-exponent) as u32))
+        Ratio::new(base, BigInt::from(10).pow(exponent.unsigned_abs()))
     }
 }
 
